@@ -130,6 +130,15 @@ pub fn check_text(ctx: &mut Ctx, e: &Engines, text: &str, rule_idx: usize, origi
     let (a, b, c) = three_way(e, rule_idx, text);
     let rname = e.table[rule_idx].0;
     let case = json!({"text": text, "rule": rname});
+    // the guard limit counts combinator calls, and the three engines make different numbers of them for the same
+    // parse (the VM interprets `skip` and built-ins with extra calls): a parse on which any engine trips the guard
+    // says nothing about agreement and is set aside (counted)
+    let tripped = |o: &Obs| matches!(o, Obs::Err { custom: Some(m), .. } if m == "call limit reached");
+    if tripped(&a) || tripped(&b) || tripped(&c) {
+        ctx.excluded += 1;
+        ctx.class(&format!("{origin}:set-aside:guard-call-limit-reached"));
+        return Ok(());
+    }
     if a != b {
         return Err(Fail::new("c14:checked-in-vs-vm", format!("rule {rname} on {text:?} ({origin}):\n checked-in parser: {}\n grammar.pest via optimizer+VM: {}", short(&a), short(&b)), case));
     }
@@ -205,7 +214,7 @@ pub fn replay(case: &Value) -> Result<(), Fail> {
 pub const DEF: CheckDef = CheckDef {
     id: "C14",
     rule: "Texts: token-mutated chunks of the repository's .pest files; adversarially spelled (C07 speller) and then token-mutated generated grammars; short token soup over the meta-grammar's dictionary; a fixed list of ~50 fragments (literals, escapes, repetition suffixes, comments, docs, operators) x EVERY rule of the meta-grammar as start rule (the other sources use the top rule, or a random rule 30% of the time). Three engines: pest_meta::parser::parse (checked-in grammar.rs), Vm over parse_and_optimize(meta/src/grammar.pest) (current optimizer + VM), and a parser derived from the same file at harness build time (current generator). Oracle: pairwise equality of the outcome - identical token stream (rule names by Debug text, byte positions) or identical error position and expected/unexpected rule-name sets; a panic is an outcome of its own. Non-trivial = text >= 20 bytes on which grammar_rule matched at least once, or a successful non-empty parse from a sub-rule; distinct = distinct (text, start rule).",
-    assumptions: &["error rule lists are compared as sets of names (each engine sorts by its own Rule type's order)", "a 2,000,000-call limit is in force identically for the three engines"],
+    assumptions: &["error rule lists are compared as sets of names (each engine sorts by its own Rule type's order)", "a 2,000,000-call guard limit is in force for the three engines; a text on which any engine reaches it is set aside and counted (the engines make different numbers of calls for the same parse)"],
     floor: |t| t.pick(5_000, 50_000),
     shards: |_| 16,
     run,
